@@ -142,9 +142,11 @@ func DecimalFloatToBigInt(value compact_float.DFloat, maxBase10Exponent int) (*b
 // big.Int to other
 
 func BigIntToBigDecimalFloat(value *big.Int) apd.Decimal {
-	return apd.Decimal{
-		Coeff: *value,
-	}
+	// apd keeps the sign in Negative and requires a non-negative coefficient
+	var d apd.Decimal
+	d.Coeff.Abs(value)
+	d.Negative = value.Sign() < 0
+	return d
 }
 
 func BigIntToInt(value *big.Int) (int64, error) {
